@@ -399,7 +399,8 @@ fn check_constructors(dim: usize) -> CaseOut {
         _ => v(&mut out, "empty", "set", "empty(dim) contains a point".into(), rec("empty", json!(null))),
     }
     // hypercube
-    for r in [0.0, 0.5, 1.0, 2.0] {
+    // (a negative radius describes the empty set {x_i <= r, -x_i <= r})
+    for r in [0.0, 0.5, 1.0, 2.0, -0.5, -1.0] {
         out.add("evaluations", 1);
         let mut exp: Rows = vec![];
         for i in 0..n {
@@ -543,6 +544,55 @@ fn check_constructors(dim: usize) -> CaseOut {
     out
 }
 
+/// The single-precision instantiation `AffFuncBase<PolytopeT, OwnedRepr<f32>>` of the same generic code: membership
+/// within the documented 1e-8 on axis-parallel rows (where the f32 arithmetic of `contains` is exact).
+fn check_f32() -> CaseOut {
+    use affinitree::linalg::affine::{AffFuncBase, PolytopeT};
+    type P32 = AffFuncBase<PolytopeT, ndarray::OwnedRepr<f32>>;
+    let mut out = CaseOut::default();
+    out.add("systems", 1);
+    out.add("systems_nontrivial", 1);
+    let ulp = f32::EPSILON; // 2^-23
+    for n in 1..=2usize {
+        for (axis, sign, b) in [(0usize, 1.0f32, 0.0f32), (0, 1.0, 1.0), (0, -1.0, 1.0), (n - 1, 1.0, -2.0), (n - 1, -1.0, 0.0)] {
+            let mut m = ndarray::Array2::<f32>::zeros((1, n));
+            m[[0, axis]] = sign;
+            let by_rows = P32::from_mats(m, ndarray::arr1(&[b]));
+            let cube = P32::hypercube(n, 1.0f32);
+            // coordinate values around the boundary sign * x = b
+            let base = sign * b;
+            for (delta, name) in [(0.0f32, "on"), (5e-8, "5e-8 beyond"), (ulp * base.abs().max(1.0), "one f32 ulp beyond"), (-5e-8, "5e-8 inside"), (1e-3, "1e-3 beyond")] {
+                out.add("evaluations", 1);
+                let mut x = ndarray::Array1::<f32>::zeros(n);
+                x[axis] = base + sign * delta;
+                // exact verdict from the f32 values actually stored
+                let viol = (sign as f64) * (x[axis] as f64) - (b as f64);
+                let must_out = viol > 2e-8;
+                let must_in = viol <= 0.0;
+                match catch(|| by_rows.contains(&x)) {
+                    Err(m) => v(&mut out, "contains", "panic", format!("f32 contains panicked: {m}"), json!({"n": n, "axis": axis})),
+                    Ok(c) => {
+                        if (must_out && c) || (must_in && !c) {
+                            v(&mut out, "contains", "f32_membership", format!("f32 polytope {sign} x_{axis} <= {b}: contains(point {name}) = {c}, violation {viol:e}"), json!({"n": n, "axis": axis, "sign": sign, "bias": b, "delta": delta}));
+                        }
+                    }
+                }
+            }
+            // hypercube(n, 1): one ulp above 1 on an axis is outside, 1 itself is inside
+            for (val, inside) in [(1.0f32, true), (1.0 + ulp, false), (-1.0 - ulp, false), (-1.0, true)] {
+                out.add("evaluations", 1);
+                let mut x = ndarray::Array1::<f32>::zeros(n);
+                x[axis] = val;
+                match catch(|| cube.contains(&x)) {
+                    Ok(c) if c == inside => {}
+                    other => v(&mut out, "hypercube", "f32_membership", format!("f32 hypercube({n}, 1): contains(x_{axis} = {val:e}) = {:?}, expected {inside}", other), json!({"n": n, "axis": axis, "value": val})),
+                }
+            }
+        }
+    }
+    out
+}
+
 pub fn cases(tier: Tier) -> Vec<Case> {
     let mut v = vec![];
     let bias = [-2.0, -1.0, 0.0, 1.0, 2.0];
@@ -600,7 +650,13 @@ pub fn run(tier: Tier) -> Report {
             }
             o
         }
-        Case::Constructors(d) => check_constructors(*d),
+        Case::Constructors(d) => {
+            let mut o = check_constructors(*d);
+            if *d == 1 {
+                o.merge(check_f32());
+            }
+            o
+        }
     });
     rep.set("cases_total", cs.len() as u64);
     if let Some(Case::Transform(s)) = cs.get(cs.len() / 2) {
